@@ -59,6 +59,40 @@ def isCharBoundary (s : Octets) (k : Nat) : Bool :=
     | none => k == s.length
     | some c => !isCont c
 
+/-- number of continuation octets announced by a lead octet (`none`: `c` cannot start a character) -/
+def contCount (c : Char) : Option Nat :=
+  if c.toNat < 0x80 then some 0
+  else if c.toNat < 0xC0 then none
+  else if c.toNat < 0xE0 then some 1
+  else if c.toNat < 0xF0 then some 2
+  else if c.toNat < 0xF8 then some 3
+  else none
+
+/-- one step of the UTF-8 shape automaton: `pending` continuation octets are still due -/
+def utf8Next (pending : Nat) (c : Char) : Option Nat :=
+  match pending with
+  | 0 => contCount c
+  | m + 1 => if isCont c then some m else none
+
+/-- the octets have the SHAPE of UTF-8 (every lead octet is followed by exactly the number of continuation octets it
+announces). Every Rust `str` has it (`utf8Shaped 0`); overlong forms, surrogates and code points above U+10FFFF are
+not excluded, so theorems assuming it cover a superset of the real inputs. The driver evaluates it on every case
+(`utf8=`), the harness answers 1 for every `&str`. -/
+def utf8Shaped : Nat → Octets → Bool
+  | p, [] => p == 0
+  | p, c :: r =>
+    match utf8Next p c with
+    | some p' => utf8Shaped p' r
+    | none => false
+
+/-- the one base shape on which `iri[pseudoroot - 1..]` can cut a character (finding C17-boundary-panic): a non-empty
+authority whose last octet is a continuation octet (it ends in a multi-byte character) followed by an empty path -/
+def authEndsMultibyteNoPath (base : Octets) : Bool :=
+  let b := Rfc3986.split base
+  match b.authority with
+  | some a => b.path.isEmpty && (match a.getLast? with | some c => isCont c | none => false)
+  | none => false
+
 /-- `&s[k..]`; `none` = panic ("byte index k is not a char boundary" / out of range) -/
 def sliceFrom (s : Octets) (k : Nat) : Option Octets :=
   if isCharBoundary s k then some (s.drop k) else none
@@ -292,6 +326,28 @@ def cleanCase (base : Octets) (n : Nat) (iri : Octets) : Bool :=
           && startsWith '/' t && !startsWith '/' (t.drop 1)
           && noDotSegs ((Rfc3986.spanNot ['?', '#'] t).1.drop 1)) )
   | _ => false
+
+/-- a relative path that resolution leaves alone wherever a reference starts with it: no dot segment, and empty or
+neither starting with '/' nor with a ':' in its first segment -/
+def cleanRel (t : Octets) : Bool :=
+  let tp := (Rfc3986.spanNot ['?', '#'] t).1
+  noDotSegs tp && (tp.isEmpty || (!startsWith '/' tp && !startsWith ':' (Rfc3986.spanNot [':', '/', '?', '#'] t).2))
+
+/-- INPUT-side condition on (base, IRI): every suffix of the IRI that starts right after a '/' of the base path lying
+inside the common byte prefix is `cleanRel` -/
+def cleanSuffixes (base iri : Octets) : Bool :=
+  let pb := pathBegin (Rfc3986.split base)
+  (List.range (lcp base iri + 1)).all fun c => !(pb < c && base[c - 1]? == some '/') || cleanRel (iri.drop c)
+
+/-- the INPUT-side region of `rel_path_input_partial` (no reference to what `relativize` returns): the base has a
+scheme and a rooted path without dot segments, the common byte prefix ends strictly inside the base path, at or after
+`pseudoroot`, and `cleanSuffixes` holds. The driver prints it as `m.inpath`. -/
+def pathInputCase (base : Octets) (n : Nat) (iri : Octets) : Bool :=
+  let R := new base n
+  let b := Rfc3986.split base
+  let l := lcp base iri
+  b.scheme.isSome && startsSlash b.path && noDotSegs b.path && decide (l ≥ R.pseudoroot) && decide (l < R.path_end) &&
+    cleanSuffixes base iri
 
 /-- octets of a string / string of octets (driver) -/
 def ofUtf8 (s : String) : Octets := s.toUTF8.toList.map (fun b => Char.ofNat b.toNat)
